@@ -556,5 +556,248 @@ theorem maxF32Avx2_spec (o : Cmp α) (ht : o.Total) (rows : Nat) (f : Nat → Na
     · have hc0 : st.getD c o.zero = st.getD (8 * 3 + c % 8) o.zero := by congr 1; omega
       rw [hc0]; exact hd.2.2.2
 
+theorem maxU8Avx2_eq_none_iff (o : Cmp α) (rows : Nat) (f : Nat → Nat → α) :
+    maxU8Avx2 o rows f = none ↔ rows = 0 := by
+  unfold maxU8Avx2 iterMax
+  by_cases h : rows = 0
+  · simp [h]
+  · simp only [h, if_false, reduce1_eq_none]
+    constructor
+    · intro h0
+      have := congrArg List.length h0
+      rw [rowsRun_length] at this
+      simp at this
+    · intro h0; exact absurd h0 (by simp)
+
+/-- `max_u8_avx2` (accumulator seeded with zero, the least byte) over a linear order whose least
+    element is `zero` -/
+theorem maxU8Avx2_spec (o : Cmp α) (ht : o.Total)
+    (hanti : ∀ a b, o.le a b = true → o.le b a = true → a = b)
+    (hzero : ∀ v, o.le o.zero v = true)
+    (rows : Nat) (f : Nat → Nat → α) (v : α)
+    (h : maxU8Avx2 o rows f = some v) : IsMax o rows 32 f v := by
+  have t1 : mu8Init = .zero ∧ mu8AccFirst = true := by decide
+  unfold maxU8Avx2 at h
+  split at h
+  · cases h
+  next hrows =>
+  have hrows' : 0 < rows := Nat.pos_of_ne_zero hrows
+  generalize hst : rowsRun (mu8Step o) (fun i s => f i s) rows
+    ((List.range 32).map fun s => initLane o f mu8Init s) = st at h
+  have hlen : st.length = 32 := by rw [← hst, rowsRun_length]; simp
+  have hV : ∀ s, s < 32 → ∃ w, st[s]? = some w ∧ (∃ i, i < rows ∧ w = f i s) ∧
+      ∀ i, i < rows → o.le (f i s) w = true := by
+    intro s hs
+    have hstep : mu8Step o = fun _ m r => maxepu8 o m r := by
+      funext i m r; simp [mu8Step, t1.2]
+    obtain ⟨l1, l2, l3⟩ := lane_max o ht (maxepu8 o) (maxepu8_maxLike o ht) (fun i => f i s) rows o.zero
+    refine ⟨_, ?_, ?_, l3⟩
+    · rw [← hst, rowsRun_getElem?, List.getElem?_map, List.getElem?_range hs, hstep]
+      simp only [Option.map_some, t1.1, initLane]
+    · rcases l1 with l1 | l1
+      · -- the lane still holds zero: then the first cell of the column is zero
+        refine ⟨0, hrows', ?_⟩
+        have h0 := l3 0 hrows'
+        rw [l1] at h0 ⊢
+        exact hanti _ _ (hzero _) h0
+      · exact l1
+  obtain ⟨hmem, hdom⟩ := reduce1_maxLike o ht _ (iterMaxOp_maxLike o ht) _ v h
+  constructor
+  · obtain ⟨s, hs⟩ := List.mem_iff_getElem?.1 hmem
+    have hs32 : s < 32 := by
+      rw [← hlen]; exact (List.getElem?_eq_some_iff.1 hs).1
+    obtain ⟨w, hw1, ⟨i, hi, hw2⟩, _⟩ := hV s hs32
+    rw [hs] at hw1
+    cases hw1
+    exact ⟨i, s, hi, hs32, hw2.symm⟩
+  · intro r c hr hc
+    obtain ⟨w, hw1, _, hw3⟩ := hV c hc
+    exact ht.trans _ _ _ (hw3 r hr) (hdom w (List.mem_iff_getElem?.2 ⟨c, hw1⟩))
+
+/-! ### `argmax_u8_avx2` -/
+
+/-- the byte column a 16-bit lane of `_mm256_unpack{lo,hi}_epi8(r, zero)` carries -/
+def u8Col (hi : Bool) (j : Nat) : Nat := 16 * (2 * j / 16) + (if hi then 8 else 0) + 2 * j % 16 / 2
+
+/-- unpacking against zero zero-extends: the lane holds the byte of column `u8Col hi j` -/
+theorem lane16_zero (hi : Bool) (a : Nat → Nat) (j : Nat) :
+    lane16 hi a (fun _ => 0) j = a (u8Col hi j) := by
+  have h1 : 2 * j % 2 = 0 := by omega
+  have h2 : (2 * j + 1) % 2 = 1 := by omega
+  simp [lane16, unpackEpi8Src, u8Col, h1, h2]
+
+/-- `max_by_key` returns an element of the list whose key dominates every key -/
+theorem maxByKeyLast_spec {β : Type} (o : Cmp α) (ht : o.Total) (key : β → α) (l : List β) (b : β)
+    (h : maxByKeyLast o.le key l = some b) : b ∈ l ∧ ∀ x ∈ l, o.le (key x) (key b) = true := by
+  cases l with
+  | nil => simp [maxByKeyLast] at h
+  | cons a t =>
+    simp only [maxByKeyLast, Option.some.injEq] at h
+    have hstep1 : ∀ (s x : β), o.le (key s) (key (if o.le (key s) (key x) = true then x else s)) = true := by
+      intro s x
+      cases hc : o.le (key s) (key x)
+      · simpa using ht.refl _
+      · simpa using hc
+    have hstep2 : ∀ (s x : β), o.le (key x) (key (if o.le (key s) (key x) = true then x else s)) = true := by
+      intro s x
+      cases hc : o.le (key s) (key x)
+      · simpa using ht.le_of_not_le hc
+      · simpa using ht.refl _
+    have hbest := foldl_best o ht key key _ hstep1 hstep2 t a
+    have hinv := foldl_inv (fun b => b ∈ a :: t)
+      (fun (s x : β) => if o.le (key s) (key x) = true then x else s) t a
+      (by
+        intro s x hx hs
+        cases hc : o.le (key s) (key x)
+        · simpa using hs
+        · simpa using Or.inr hx)
+      (List.mem_cons_self ..)
+    rw [h] at hbest hinv
+    refine ⟨hinv, ?_⟩
+    intro x hx
+    rcases List.mem_cons.1 hx with rfl | hx
+    · exact hbest.1
+    · exact hbest.2 x hx
+
+/-- facts about the regenerated tables of `argmax_u8_avx2`, by kernel evaluation: the 16-bit lanes
+    start at -1 with index 0, compare `r > s`, store `r - 1`; and — the lane-order fact — after the
+    two `permute2x128` stores, `x[col]` is the index lane whose score lane was unpacked from byte
+    column `col`, for every `col < 32` -/
+theorem au8_tables :
+    au8UnpackHi.length = 2 ∧
+    (∀ s, s < 32 → au8SInit.getD (s / 16) .zero = .const (-1)) ∧
+    (∀ s, s < 32 → au8PInit.getD (s / 16) .zero = .zero) ∧
+    au8Ones = 1 ∧ au8AccFirst = false ∧ au8Rel = .gt ∧
+    (storeAll 32 32 16 au8Stores (List.range 32)).length = 32 ∧
+    (∀ col, col < 32 →
+      (storeAll 32 32 16 au8Stores (List.range 32)).getD col 32 < 32 ∧
+      u8Col (au8UnpackHi.getD ((storeAll 32 32 16 au8Stores (List.range 32)).getD col 32 / 16) false)
+        ((storeAll 32 32 16 au8Stores (List.range 32)).getD col 32 % 16) = col) := by
+  decide
+
+theorem argmaxU8Avx2_spec (o : Cmp UInt8) (ho : ∀ a b, o.le a b = decide (a ≤ b))
+    (rows : Nat) (f : Nat → Nat → UInt8) (p : Coord)
+    (h : argmaxU8Avx2 o rows f = .ok (some p)) : HoldsMax o rows 32 f p := by
+  obtain ⟨t1, t2, t3, t4, t5, t6, t7, t8⟩ := au8_tables
+  have hle_iff : ∀ a b : UInt8, o.le a b = true ↔ a.toNat ≤ b.toNat := by
+    intro a b; rw [ho]; simp [UInt8.le_iff_toNat_le]
+  have ht : ∀ a b, o.le a b = true ∨ o.le b a = true := by
+    intro a b; rw [hle_iff, hle_iff]; omega
+  have htr : ∀ a b c, o.le a b = true → o.le b c = true → o.le a c = true := by
+    intro a b c; rw [hle_iff, hle_iff, hle_iff]; omega
+  -- the part of `Cmp.Total` the proof uses, packaged with a fresh strict order
+  let o' : Cmp UInt8 := { le := o.le, lt := fun a b => !o.le b a, zero := 0, negInf := 0 }
+  have ht' : o'.Total := ⟨ht, htr, fun _ _ => rfl⟩
+  unfold argmaxU8Avx2 at h
+  split at h
+  · cases h
+  split at h
+  · cases h
+  next hbig hrows =>
+  simp only [Except.ok.injEq] at h
+  have hrows' : 0 < rows := Nat.pos_of_ne_zero hrows
+  generalize hst : rowsRun (laneStep au8Take (· - au8Ones) (· % 65536)) (au8Read f) rows au8Init = st at h
+  have hlen : (st.map (·.1)).length = 32 := by
+    rw [← hst, List.length_map, rowsRun_length]; simp [au8Init, t1]
+  -- every slot ends on a row holding the maximum of the byte column it was unpacked from
+  have hslot : ∀ s, s < 32 → ∃ q, (st.map (·.1))[s]? = some q ∧ q < rows ∧
+      ∀ i, i < rows →
+        o.le (f i (u8Col (au8UnpackHi.getD (s / 16) false) (s % 16)))
+             (f q (u8Col (au8UnpackHi.getD (s / 16) false) (s % 16))) = true := by
+    intro s hs
+    have hinit : au8Init[s]? = some (0, -1) := by
+      simp only [au8Init, t1, List.getElem?_map, List.getElem?_range hs, Option.map_some,
+        t2 s hs, t3 s hs, initIdx]
+    have hrd : (fun i => au8Read f i s) =
+        fun i => Int.ofNat (f i (u8Col (au8UnpackHi.getD (s / 16) false) (s % 16))).toNat := by
+      funext i; simp only [au8Read, lane16_zero]
+    obtain ⟨n, rfl⟩ : ∃ n, rows = n + 1 := ⟨rows - 1, by omega⟩
+    have hl := laneFold_argmax (fun a b : Int => decide (a ≤ b))
+      (by intro a b; simp only [decide_eq_true_eq]; omega)
+      (by intro a b c; simp only [decide_eq_true_eq]; omega)
+      au8Take (· - au8Ones) (· % 65536) (fun s v => s = v - 1)
+      (by intro r; simp [t4])
+      (by
+        intro s v r hs
+        subst hs
+        simp only [au8Take, t5, t6, Rel.evalInt, Bool.false_eq_true, if_false]
+        apply decide_eq_decide.2
+        omega)
+      (fun i => Int.ofNat (f i (u8Col (au8UnpackHi.getD (s / 16) false) (s % 16))).toNat) 0 (-1)
+      (by
+        simp only [au8Take, t5, t6, Rel.evalInt, Bool.false_eq_true, if_false, decide_eq_true_eq]
+        exact Int.lt_of_lt_of_le (by decide) (Int.natCast_nonneg _))
+      n (by intro i hi; exact Nat.mod_eq_of_lt (by omega))
+    refine ⟨_, ?_, hl.1, ?_⟩
+    · rw [← hst, List.getElem?_map, rowsRun_getElem?, hinit, hrd]; rfl
+    · intro i hi
+      have := hl.2.2 i hi
+      simp only [decide_eq_true_eq] at this
+      exact (hle_iff _ _).2 (Int.ofNat_le.1 this)
+  -- the stored array pairs x[col] with column col
+  have hx : ColMax o rows 32 f (storeAll 0 32 16 au8Stores (st.map (·.1))) := by
+    intro col hc
+    obtain ⟨h1, h2⟩ := t8 col hc
+    obtain ⟨q, hq1, hq2, hq3⟩ := hslot _ h1
+    rw [h2] at hq3
+    refine ⟨q, ?_, hq2, hq3⟩
+    rw [storeAll_eq_map 0 32 16 au8Stores _ hlen, List.getElem?_map]
+    have hg : (storeAll 32 32 16 au8Stores (List.range 32))[col]? =
+        some ((storeAll 32 32 16 au8Stores (List.range 32)).getD col 32) := by
+      rw [List.getD_eq_getElem?_getD]
+      have : col < (storeAll 32 32 16 au8Stores (List.range 32)).length := by rw [t7]; exact hc
+      rw [List.getElem?_eq_getElem this]; rfl
+    rw [hg]
+    generalize (storeAll 32 32 16 au8Stores (List.range 32)).getD col 32 = G at hq1
+    simp only [Option.map_some, List.getD_eq_getElem?_getD, hq1, Option.getD_some]
+  have hxlen : (storeAll 0 32 16 au8Stores (st.map (·.1))).length = 32 := by
+    rw [storeAll_eq_map 0 32 16 au8Stores _ hlen, List.length_map, t7]
+  generalize storeAll 0 32 16 au8Stores (st.map (·.1)) = x at h hx hxlen
+  obtain ⟨hmem, hdom⟩ := maxByKeyLast_spec o' ht' (fun pos : Coord => f pos.1 pos.2) x.zipIdx p h
+  have hm := List.mem_zipIdx_iff_getElem?.1 hmem
+  have hp2 : p.2 < 32 := by rw [← hxlen]; exact (List.getElem?_eq_some_iff.1 hm).1
+  obtain ⟨q, hq1, hq2, _⟩ := hx p.2 hp2
+  rw [hm] at hq1
+  cases hq1
+  refine ⟨hq2, hp2, ?_⟩
+  intro r c hr hc
+  obtain ⟨q', hq1', _, hq3'⟩ := hx c hc
+  exact htr _ _ _ (hq3' r hr) (hdom (q', c) (List.mk_mem_zipIdx_iff_getElem?.2 hq1'))
+
+theorem argmaxU8Avx2_none_iff (o : Cmp UInt8) (rows : Nat) (f : Nat → Nat → UInt8) :
+    argmaxU8Avx2 o rows f = .ok none ↔ rows = 0 := by
+  unfold argmaxU8Avx2
+  by_cases h1 : rows > 65535 + 1
+  · simp [h1] <;> omega
+  · by_cases h2 : rows = 0
+    · simp [h2]
+    · simp only [h1, h2, if_false]
+      constructor
+      · intro h
+        simp only [Except.ok.injEq] at h
+        have hl : (storeAll 0 32 16 au8Stores
+          ((rowsRun (laneStep au8Take (· - au8Ones) (· % 65536)) (au8Read f) rows au8Init).map (·.1))).zipIdx = [] := by
+          cases hz : (storeAll 0 32 16 au8Stores
+            ((rowsRun (laneStep au8Take (· - au8Ones) (· % 65536)) (au8Read f) rows au8Init).map (·.1))).zipIdx with
+          | nil => rfl
+          | cons a t => rw [hz] at h; simp [maxByKeyLast] at h
+        have hlen : ((rowsRun (laneStep au8Take (· - au8Ones) (· % 65536)) (au8Read f) rows au8Init).map (·.1)).length = 32 := by
+          rw [List.length_map, rowsRun_length]; simp [au8Init, au8_tables.1]
+        have := congrArg List.length hl
+        rw [List.length_zipIdx, storeAll_eq_map 0 32 16 au8Stores _ hlen, List.length_map,
+          au8_tables.2.2.2.2.2.2.1] at this
+        simp at this
+      · intro h; exact h.elim
+
+/-- the only panic is the explicit bound on the row count (16-bit index lanes) -/
+theorem argmaxU8Avx2_panic_iff (o : Cmp UInt8) (rows : Nat) (f : Nat → Nat → UInt8) :
+    (∃ e, argmaxU8Avx2 o rows f = .error e) ↔ rows > 65536 := by
+  unfold argmaxU8Avx2
+  by_cases h1 : rows > 65535 + 1
+  · simp [h1] <;> omega
+  · by_cases h2 : rows = 0
+    · simp [h2]
+    · simp [h1, h2] <;> omega
+
 end C07
 end LMV
